@@ -1,6 +1,60 @@
-(* C06: placeholder until the proofs are merged; a concrete run of the model. *)
-From BCL Require Import Model.Api.
+(* C06: Every input ends in a result or an error, never a crash or a hang.
+
+   In the model every Go panic site is an explicit constructor and every loop runs on fuel, so "never
+   panics, never hangs" is the unreachability of `Panic _`, `VPanic _` (other than the excluded repetition
+   case) and of fuel exhaustion.  Proved: the lexer always terminates within its fuel on every byte
+   sequence and every chunking (C06_lexer_total); code accepted by the bytecode verifier runs to RET, to a
+   documented runtime error or to the excluded case, within the fuel the API supplies (C06_vm_total);
+   LoadProg of any truncated dump is an error, never a panic (C13); Bind never panics (C15).  Validated by
+   the differential run only: that the parser's fuel is never exhausted (the model reports `oof`, which
+   has never been observed), and that every compiled program passes the verifier (it is checked on every
+   program the real compiler produces).  Partial: Go stack exhaustion and allocator failure are outside
+   the model; the property excludes them. *)
+From BCL Require Import Model.Api Model.Verify Proofs.LineCalcProofs Proofs.LexerProofs Proofs.ParserInvProofs Proofs.OptionsProofs Proofs.VerifyProofs.
+Open Scope N_scope.
+
+Theorem C06_lexer_total : forall cs, exists tk,
+  last_opt (fst (lex cs)) = Some tk /\ (ttyp tk = tEOF \/ ttyp tk = tFAIL).
+Proof. first [exact ParserInvProofs.lex_fuel_enough | apply ParserInvProofs.lex_fuel_enough]. Qed.
+Print Assumptions C06_lexer_total.
+
+Theorem C06_lexer_shape : forall cs, lex_shape (fst (lex cs)).
+Proof. first [exact ParserInvProofs.lex_tokens_shape | apply ParserInvProofs.lex_tokens_shape]. Qed.
+Print Assumptions C06_lexer_shape.
+
+Theorem C06_vm_total : forall p tr, verify p = true ->
+  let (m, r) := run_fuel (run_bound p) p tr (init_vm p) in
+  match r with
+  | VOk => tos m = 0 /\ btos m = 0 /\ stack m = [] /\ bstack m = [] /\ rest m = []
+  | VErr _ _ => True
+  | VPanic PExcluded => True
+  | _ => False
+  end.
+Proof. first [exact VerifyProofs.C10_execute | apply VerifyProofs.C10_execute]. Qed.
+Print Assumptions C06_vm_total.
+
+Theorem C06_vm_no_panic : forall p fuel tr, verify p = true ->
+  let (m, r) := run_fuel fuel p tr (init_vm p) in
+  match r with
+  | VOk => tos m = 0 /\ btos m = 0 /\ stack m = [] /\ bstack m = [] /\ rest m = []
+  | VErr _ _ => True
+  | VPanic POutOfFuel => True
+  | VPanic PExcluded => True
+  | VPanic _ => False
+  | VInternal _ => False
+  end.
+Proof. first [exact VerifyProofs.C10_check_sound | apply VerifyProofs.C10_check_sound]. Qed.
+Print Assumptions C06_vm_no_panic.
+
+(* malformed input is an error with a diagnostic, not a silent acceptance *)
+Theorem C06_error_reported : forall ts,
+  hadError (parse_tokens ts) = true <-> log (parse_tokens ts) <> [].
+Proof. first [exact ParserInvProofs.C17_error_iff_log | apply ParserInvProofs.C17_error_iff_log]. Qed.
+Print Assumptions C06_error_reported.
+
+(* the literals and limits that used to panic are errors in the model (and, by the differential run, in the code) *)
 Example C06_example :
-  pr_ok (parse_whole (bs "input") (bs "var x = 1 print x + 2 * 3")) = true.
-Proof. vm_compute. reflexivity. Qed.
-Print Assumptions C06_example.
+  map (fun src => pr_ok (parse_whole (bs "f") src)) [bs "print 08"; bs "print 0x"; bs "print 1e999"; bs "print " ++ [34; 92; 113; 34]; bs "print 9223372036854775808"]
+  = [false; false; false; false; false]
+  /\ match snd (interpret (bs "f") (bs "print ""ab"" * -1") false false false) with IRun _ rr => rr_res rr = VErr 15 (bs "MUL: negative repeat count") | _ => False end.
+Proof. vm_compute. split; reflexivity. Qed.
